@@ -120,4 +120,121 @@ theorem wf_detach (h : WfS a hole) (hh : hole = none ∨ hole = some k) (hq : a.
 
 end
 
+/-! ### counting sub-requests -/
+
+theorem countP_split_key (l : List (Nat × Owner)) (hn : (l.map (·.1)).Nodup) {k : Nat} {o : Owner}
+    (hm : (k, o) ∈ l) (P P' : Nat × Owner → Bool) (hP' : ∀ p ∈ l, p.1 ≠ k → P' p = P p)
+    (hk : P' (k, o) = false) : l.countP P = l.countP P' + (if P (k, o) then 1 else 0) := by
+  induction l with
+  | nil => cases hm
+  | cons x r ih =>
+    simp only [List.map_cons, List.nodup_cons] at hn
+    rcases List.mem_cons.mp hm with hx | hr
+    · subst hx
+      have hr : r.countP P = r.countP P' := by
+        apply List.countP_congr
+        intro p hp
+        have hne : p.1 ≠ k := fun he => hn.1 (he ▸ List.mem_map.mpr ⟨p, hp, rfl⟩)
+        rw [hP' p (List.mem_cons_of_mem _ hp) hne]
+      rw [List.countP_cons, List.countP_cons, hr, hk]
+      simp
+    · have hne : x.1 ≠ k := fun he => hn.1 (he ▸ List.mem_map.mpr ⟨(k, o), hr, rfl⟩)
+      have := ih hn.2 hr (fun p hp => hP' p (List.mem_cons_of_mem _ hp))
+      rw [List.countP_cons, List.countP_cons, this, hP' x List.mem_cons_self hne]
+      omega
+
+theorem subsP_eq_zero {qKO : List (Nat × Owner)} {idx : List Nat} {id : Nat} :
+    subsP qKO idx id = 0 ↔ NoSubP qKO idx id := by
+  unfold subsP NoSubP
+  rw [List.countP_eq_zero]
+  simp only [Bool.and_eq_true, decide_eq_true_eq, not_and]
+
+/-- unlinking the query `k` owned by `o` lowers the count of `o`'s compound request by one and leaves the
+    other counts alone -/
+theorem subsP_unlink {qKO : List (Nat × Owner)} {idx idx' : List Nat} {k : Nat} {o : Owner}
+    (hn : (qKO.map (·.1)).Nodup) (hm : (k, o) ∈ qKO) (hk : k ∈ idx)
+    (hidx : ∀ x, x ∈ idx' ↔ x ∈ idx ∧ x ≠ k) (id : Nat) :
+    subsP qKO idx id = subsP qKO idx' id + (if o = .client id then 1 else 0) := by
+  unfold subsP
+  rw [countP_split_key qKO hn hm _ (fun p => decide (p.1 ∈ idx') && decide (p.2 = Owner.client id))]
+  · simp only [hk, decide_true, Bool.true_and, decide_eq_true_eq]
+  · intro p _ hne
+    have : (p.1 ∈ idx') = (p.1 ∈ idx) := propext ⟨fun h => ((hidx _).mp h).1, fun h => (hidx _).mpr ⟨h, hne⟩⟩
+    simp only [this]
+  · have : ¬ k ∈ idx' := fun h => ((hidx _).mp h).2 rfl
+    simp [this]
+
+section
+variable {a : Sk} {hole : Option Nat} {k : Nat} {e : QSk}
+
+theorem detach_qKO (hq : a.q? k = some e) : (a.detach k).qKO = a.qKO := by
+  unfold Sk.qKO; rw [(detach_same hq).1]; exact rfc_qKO a k
+theorem detach_cFUQ (hq : a.q? k = some e) : (a.detach k).cFUQ = (a.removeFromConn k).cFUQ := by
+  unfold Sk.cFUQ; rw [(detach_same hq).2.1]
+
+theorem step_detach {xf xi d} (h : WfS a hole) (hq : a.q? k = some e) : StepS xf xi d a (a.detach k) := by
+  have hs := detach_same hq
+  have h1 : StepS xf xi d a (a.removeFromConn k) := step_rfc h hq
+  refine ⟨hs.2.2.2.2.2.2.2.2.2.2.2.2.2.1, by rw [hs.2.2.2.2.2.2.2.2.2.1]; exact Nat.le_refl _,
+    by rw [hs.2.2.2.2.2.2.2.1]; exact Nat.le_refl _,
+    fun x hx => Or.inl ((mem_idx_detach h hq).mp hx).1, ?_, ?_, ?_⟩
+  · rw [detach_cFUQ hq]; exact h1.unl
+  · intro id _ _ hn
+    unfold Sk.NoSub at *
+    rw [detach_qKO hq]
+    exact hn.shrink (fun _ hp => hp) (fun x hx => ((mem_idx_detach h hq).mp hx).1)
+  · intro id ha _
+    unfold Sk.Active at *
+    rw [hs.2.2.2.2.2.1, hs.2.2.2.2.2.2.2.2.2.2.2.1]; exact ha
+
+/-- after unlinking a linked query its owner's callback is free to be handed over, and the query counts as
+    one outstanding completion of its compound request -/
+theorem owner_detach {d} (h : WfS a hole) (hq : a.q? k = some e) (hk : k ∈ a.idx) (hd : DebtOk none d a) :
+    (a.detach k).OwnerFree e.owner ∧ (a.detach k).DebtFor d e.owner := by
+  have hs := detach_same hq
+  have hidx : ∀ x, x ∈ (a.detach k).idx ↔ x ∈ a.idx ∧ x ≠ k := fun x => mem_idx_detach h hq
+  have hko := (Sk.q?_mem_proj hq).2.1
+  have hn : (a.qKO.map (·.1)).Nodup := by
+    have : a.qKO.map (·.1) = a.qK := by unfold Sk.qKO Sk.qK; rw [List.map_map]; rfl
+    rw [this]; exact h.q.nodup
+  have hsub : ∀ id, a.subs id = (a.detach k).subs id + (if e.owner = .client id then 1 else 0) := by
+    intro id; unfold Sk.subs; rw [detach_qKO hq]; exact subsP_unlink hn hko hk hidx id
+  have hdebt : ∀ x d', (∀ c ∈ a.clients, c.tok ∈ a.pendingToks → some c.id ≠ x →
+      a.subs c.id + d c.id = (a.detach k).subs c.id + d' c.id) → (∀ id, a.nextClient ≤ id → d' id = 0) →
+      DebtOk x d' (a.detach k) := by
+    intro x d' hc hf
+    refine ⟨by rw [hs.2.2.2.2.2.2.2.2.2.1]; exact hf, ?_⟩
+    rw [hs.2.2.2.2.2.1, hs.2.2.2.2.2.2.2.2.2.2.2.1]
+    intro c hcm hp hx
+    rw [← hc c hcm hp hx]
+    exact hd.cnt c hcm hp (fun hh => by cases hh)
+  cases ho : e.owner with
+  | probe =>
+    refine ⟨trivial, hdebt none d (fun c _ _ _ => ?_) hd.fresh⟩
+    rw [hsub c.id, ho]; simp
+  | user tok =>
+    obtain ⟨t1, t2, t3⟩ := h.tok.tQ (k, e.owner) hko hk tok ho
+    refine ⟨⟨by rw [hs.2.2.2.2.2.2.2.2.2.2.2.1]; exact t1, ?_, by rw [hs.2.2.2.2.2.1]; exact t3⟩,
+      hdebt none d (fun c _ _ _ => ?_) hd.fresh⟩
+    · rw [detach_qKO hq]
+      intro p hp hpi hpo
+      have := (hidx _).mp hpi
+      exact this.2 (t2 p hp this.1 hpo)
+    · rw [hsub c.id, ho]; simp
+  | client id =>
+    obtain ⟨c, hcm, hcid, hcp⟩ := h.tok.tC (k, e.owner) hko hk id ho
+    refine ⟨⟨c, by rw [hs.2.2.2.2.2.1]; exact hcm, hcid, by rw [hs.2.2.2.2.2.2.2.2.2.2.2.1]; exact hcp⟩,
+      hdebt none (bump d id 1) (fun c' _ _ _ => ?_) (fun i hi => ?_)⟩
+    · rw [hsub c'.id, ho]
+      by_cases hcc : c'.id = id
+      · rw [hcc, bump_self]; simp; omega
+      · rw [bump_ne _ _ hcc]; simp [Ne.symm hcc]
+    · have hlt := h.k.lt c hcm
+      rw [bump_ne _ _ (by omega), hd.fresh i hi]
+
+theorem not_idx_detach (h : WfS a hole) (hq : a.q? k = some e) : k ∉ (a.detach k).idx :=
+  fun hk => ((mem_idx_detach h hq).mp hk).2 rfl
+
+end
+
 end Cares.Chan
